@@ -158,6 +158,32 @@ async fn exec(s: &mut Sess, line: &str) -> String {
             Ok(()) => "ok".into(),
             Err(e) => err(&e),
         },
+        "dump" => {
+            // the whole tree, discovered through the public read API only (ls + cget)
+            let mut items = vec![];
+            let mut stack: Vec<Option<String>> = vec![None];
+            while let Some(path) = stack.pop() {
+                let entry = match &path {
+                    Some(p) => match wb.cget(p) {
+                        Ok((v, 0)) => format!("|P:{}", js(&v)),
+                        Ok((v, ver)) => format!("|C{}:{}", ver, js(&v)),
+                        Err(_) => String::new(),
+                    },
+                    None => String::new(),
+                };
+                items.push(format!("{}{}", path.as_deref().map(xs).unwrap_or_else(|| "-".into()), entry));
+                if let Ok(children) = wb.ls(&path) {
+                    for c in children {
+                        stack.push(Some(match &path {
+                            Some(p) => format!("{p}/{c}"),
+                            None => c,
+                        }));
+                    }
+                }
+            }
+            items.sort();
+            format!("dump len={} nodes=[{}]", wb.len(), items.join(";"))
+        }
         other => panic!("unknown op {other}"),
     }
 }
